@@ -135,7 +135,8 @@ def mapstar(args):
 
 
 def starmapstar(args):
-    return list(itertools.starmap(args[0], args[1]))
+    # (see mapstar)
+    return [args[0](*x) for x in args[1]]
 
 
 def error(msg, *args, **kwargs):
